@@ -34,6 +34,9 @@ def run(ctx):
     ar.single_pass_data_rule(ctx, 'R7.5')
     r77(ctx)
     r712(ctx)
+    from . import c08 as _c08, c01 as _c01
+    _c08.r85(ctx)
+    _c01.r121(ctx, 'R7.13')
     from . import c10
     c10.r1010(ctx, 'R7.8')
 
@@ -87,6 +90,15 @@ def r712(ctx, rule='R7.12'):
         calls = [c for c in ast.walk(g) if isinstance(c, ast.Call) and callee(c) == 'consolidate_categories']
         ctx.ob(rule, 'writer.%s:categories-consolidated-before-the-footer-is-written' % q, len(calls) >= 1,
                'an append may bring more categories than the pandas metadata records', wr.loc(g))
+    ws = wr.func('write_simple.write_to_file')
+    stmts = [x for x in iter_child_stmts(ws.body)]
+    store = [i for i, x in enumerate(stmts) if isinstance(x, ast.Assign) and norm(x.targets[0]) == 'fmd.row_groups']
+    cons = [i for i, x in enumerate(stmts) if isinstance(x, ast.Expr) and callee(x.value) == 'consolidate_categories']
+    ctx.ob(rule, 'writer.write_simple:categories-consolidated-over-the-new-row-groups', bool(store) and bool(cons) and max(store) < min(cons),
+           'consolidate_categories(fmd) reads fmd.row_groups: called before the new row groups are installed it sees only the old ones', wr.loc(ws))
+    byname = [x for x in ast.walk(f) if isinstance(x, ast.Compare) and "'.'.join(col.meta_data.path_in_schema)" in norm(x.left) and "cat['name']" in norm(x)]
+    ctx.ob(rule, 'writer.consolidate_categories:chunks-matched-to-categorical-columns-by-name', len(byname) == 1,
+           'a positional pairing of the categorical columns with the chunks picks the wrong chunk whenever a categorical is not first', wr.loc(f))
     h = wr.func('write_column')
     raises = [r for r in walk_no_nested(h) if isinstance(r, ast.Raise) and 'not nullable' in norm(r)]
     ok = False
